@@ -126,6 +126,18 @@ pub(crate) fn year_doy_to_days(
     })
 }
 
+/// Converts a year to the days since 01. January 0001 of its first day.
+/// Doesn't check if the year is in the valid date range.
+pub(crate) fn year_to_days(year: i32) -> i64 {
+    let leap_years = leap_years(year) as i64;
+    if year.is_negative() {
+        let year_days = if is_leap_year(year) { 366 } else { 365 };
+        (year as i64 + 1) * 365 - leap_years - year_days
+    } else {
+        (year as i64 - 1) * 365 + leap_years
+    }
+}
+
 /// Converts year and month to the days until this month and days in the current month
 pub(crate) fn year_month_to_doy(year: i32, month: u32) -> Result<(u32, u32), AstrolabeError> {
     let is_leap_year = is_leap_year(year);
@@ -175,33 +187,6 @@ pub(crate) fn days_to_doy(days: i32) -> u32 {
 /// Converts days to day of week
 pub(crate) fn days_to_wday(days: i32, monday_first: bool) -> u32 {
     (days.rem_euclid(7) as u32 + if monday_first { 0 } else { 1 }) % 7
-}
-
-/// Get a list of specific weekdays in a month
-pub(crate) fn weekdays_in_month(year: i32, month: u32, weekday: u8) -> Vec<u32> {
-    let (_, days) = year_month_to_doy(year, month).unwrap();
-
-    let start_days = date_to_days(year, month, 1).unwrap();
-
-    let mut weekday_index = 0;
-    for index in 0..=6 {
-        if days_to_wday(start_days + index as i32, false) == weekday as u32 {
-            weekday_index = index;
-            break;
-        }
-    }
-
-    let mut weekdays = Vec::new();
-    for index in 0..=5 {
-        let day = weekday_index + 1 + index * 7;
-        if day <= days {
-            weekdays.push(day);
-        } else {
-            break;
-        }
-    }
-
-    weekdays
 }
 
 /// Converts days to week of year
